@@ -1,4 +1,4 @@
-(* NEEDS: SelfCal/AutoReplay.vo SelfCal/WeightModel.vo SelfCal/TrlQI.vo SelfCal/DispatchModel.vo SelfCal/TrlTermsQI.vo SelfCal/GuardModel.vo SelfCal/C18MErrorModel.vo SelfCal/PvalueModel.vo SelfCal/PvalueQI.vo *)
+(* NEEDS: SelfCal/AutoReplay.vo SelfCal/WeightModel.vo SelfCal/TrlQI.vo SelfCal/DispatchModel.vo SelfCal/TrlTermsQI.vo SelfCal/GuardModel.vo SelfCal/C18MErrorModel.vo SelfCal/PvalueModel.vo SelfCal/PvalueQI.vo SelfCal/VMatrixNoise.vo *)
 (* Extraction of the executable self-calibration models (AutoLoop replay kernel, weight-vector
    indexing).  Only ExtrOcamlBasic's directives are in effect. *)
 Require Extraction.
@@ -7,7 +7,7 @@ Require Import List ZArith QArith Qcanon.
 Require Import LV.Base.CField LV.Base.QcI LV.SelfCal.AutoLoop LV.SelfCal.AutoReplay LV.SelfCal.WeightModel.
 Require Import LV.SelfCal.TrlModel LV.SelfCal.TrlQI LV.SelfCal.DispatchModel.
 Require Import LV.SelfCal.TrlTermsModel LV.SelfCal.TrlTermsQI LV.SelfCal.GuardModel.
-Require Import LV.SelfCal.C18MErrorModel LV.SelfCal.PvalueModel LV.SelfCal.PvalueQI.
+Require Import LV.SelfCal.C18MErrorModel LV.SelfCal.PvalueModel LV.SelfCal.PvalueQI LV.SelfCal.VMatrixNoise.
 
 (* the checked-memory walks over integer markers *)
 Definition n_update_s := update_s_matrices nat.
@@ -42,4 +42,4 @@ Extraction "models_selfcal.ml"
   leak_count dof_of_standards
   n_merr_run
   q_weight2 q_calc_stat q_chisq_pvalue q_leak_of_samples q_cell_samples pvalue_of_stat
-  q_merr_run_args q_merr_returns.
+  q_merr_run_args q_merr_returns q_gaps_ok.
